@@ -141,6 +141,38 @@ def run(ctx):
     ctx.obligation('correspondence: version normalisation and selection = extracted model on %d version strings' % len(qs), bad is None, json.dumps(bad)[:800] if bad else '')
     if bad: ctx.violation(bad)
     get_info_cases(ctx)
+    played_with_selected(ctx)
+
+
+def played_with_selected(ctx):
+    """"is PLAYED with exactly that version's definitions and controller": a battle encoded against the build-specific directories (and against
+    their release siblings under another build number) is parsed through ReplayParser and the summary must be the one THAT controller produces
+    from the events - a selected controller that is not the one being fed, or definitions of the sibling, show as wrong or missing fields"""
+    import random, tempfile, shutil
+    from tools import battle, c09
+    from replay_parser import ReplayParser
+    wv = battle.wows_versions()
+    four = [v for v in wv if v.count('_') == 3]
+    tmp = tempfile.mkdtemp(prefix='verif-c11-')
+    try:
+        for v in four + ['_'.join(x.split('_')[:3]) for x in four if '_'.join(x.split('_')[:3]) in wv]:
+            p = os.path.join(tmp, 'w-%s.wowsreplay' % v)
+            b, vs = battle.build_wows(v, random.Random(21))
+            if v.count('_') == 2: vs = ','.join(v.split('_') + ['424242'])            # the release directory, reached through an unknown build number
+            battle.write_replay(p, 'wowsreplay', {'clientVersionFromXml': vs}, b.stream())
+            ctx.case(('played-with-selected', v)); ctx.count('played-with-selected')
+            try: h = ReplayParser(p, strict=True).get_info()['hidden']
+            except Exception as ex:
+                ctx.violation(dict(kind='selected-version-does-not-play', version_string=vs, encoded_against='wows/' + v, exception='%s: %s' % (type(ex).__name__, str(ex)[:200]),
+                                   how='tools/battle.build_wows("%s") written with that version string; ReplayParser(path, strict=True).get_info()' % v)); continue
+            diffs = c09.compare(b, h, v)
+            if diffs:
+                field, want, got = diffs[0]
+                ctx.violation(dict(kind='played-with-other-version', version_string=vs, encoded_against='wows/' + v, field=field, expected=json.loads(json.dumps(want, default=str)),
+                                   implementation=json.loads(json.dumps(got, default=str)),
+                                   how='a battle encoded against wows/%s, written with that version string; ReplayParser(path, strict=True).get_info()["hidden"] compared with the events written' % v))
+    finally:
+        shutil.rmtree(tmp, ignore_errors=True)
 
 
 def replay(ctx, path):
